@@ -29,6 +29,27 @@ pub fn explore(ex: &Ex) {
             ex.decode(l, "c10.maps", Ty::KeySet, Entry::Slice, &v);
         }
     });
+    {
+        use gen::{b, i, t, u};
+        let typed = vec![(u(1), u(2)), (u(2), b(b"kid")), (u(3), i(-7)), (u(4), gen::arr(vec![u(2), u(1), t("x")])), (u(5), b(b"iv"))];
+        let faults = vec![(u(2), b(b"")), (u(1), u(0)), (u(4), gen::arr(vec![u(1), u(1)])), (u(1000), u(0)), (crate::refcbor::NULL, u(1))];
+        super::wide_maps(ex, "c10.wide", &|k| if k % 3 == 0 { (t(&format!("x{}", k)), u(k as u64)) } else if k % 3 == 1 { (u(1000 + k as u64), b(b"v")) } else { (i(-1000 - k as i128), crate::refcbor::NULL) }, &typed, &faults, &|m, l| {
+            ex.decode(l, "c10.wide", Ty::Key, Entry::Slice, m);
+            let ks = [&[0x82u8][..], &gen::map(vec![(u(1), u(1))]).det(), m].concat();
+            ex.decode(l, "c10.wide", Ty::KeySet, Entry::Slice, &ks);
+        });
+        // long key sets with the invalid key first / in the middle / last
+        for n in [17usize, 40] {
+            let mut l = crate::mc::Local::default();
+            let good = gen::map(vec![(u(1), u(1)), (i(-1), u(6))]);
+            for bad_at in [None, Some(0), Some(n / 2), Some(n - 1)] {
+                let keys: Vec<Item> = (0..n).map(|k| if Some(k) == bad_at { gen::map(vec![(u(1), u(0))]) } else { good.clone() }).collect();
+                l.state(n as u64);
+                ex.decode(&mut l, "c10.wide", Ty::KeySet, Entry::Slice, &gen::arr(keys).det());
+            }
+            ex.rep.merge(l);
+        }
+    }
     // key sets
     let mut elems = gen::keys_valid();
     elems.extend(gen::keys_invalid());
